@@ -16,7 +16,7 @@ ASSUMPTIONS = ["operation table of DESIGN §5; futures mpsc close_channel makes 
 def run(ctx):
     F = ctx.facts("quick")
     for which in ("pubsub", "reqrep"):
-        ex, sd, cfg = routers.report(ctx, F, which, "C16", lambda f: f.kind in ("K7",) or (f.kind == "K6" and "closed" in f.what) or (f.kind == "K5" and "handle (" in f.what))
+        ex, sd, cfg = routers.report(ctx, F, which, "C16", lambda f: f.kind in ("K7", "K15") or (f.kind == "K6" and "closed" in f.what) or (f.kind == "K5" and "handle (" in f.what))
         ctx.floor("C16.%s.shutdown-states" % which, len(sd.persistent), 3 if which == "pubsub" else 6)
         ctx.check(sd.returns["Ready"] >= 1 and sd.returns["Pending"] == 0, "C16.D1.terminates", "%s:shutdown-returns" % which,
                   "%s router: from each of %d states the shutdown poll finishes (Ready returns: %d, Pending returns: %d)" % (which, len(sd.persistent), sd.returns["Ready"], sd.returns["Pending"]), cfg.body.span)
